@@ -572,3 +572,29 @@ theorem inv_run {H : Heap} (hH : HeapSpec H) (ops : List Op) : ∀ {s : State}, 
   | cons op ops ih => intro s h; exact ih (inv_step hH h op)
 
 end Cocls.Sched
+
+namespace Cocls.Sched.Stop
+
+structure Inv (s : St) : Prop where
+  excl : (s.sp = SPc.holding ∨ s.sp = SPc.notified) → s.w ≠ WPc.locked
+  after : (s.sp = SPc.notified ∨ s.sp = SPc.done) → (s.w = WPc.idle ∨ s.w = WPc.exited)
+  flagged : s.sp ≠ SPc.start → s.flag = true
+
+theorem inv_step (s s' : St) (a : Act) (h : Inv s) (hs : step s a = some s') : Inv s' := by
+  obtain ⟨w, sp, flag⟩ := s
+  obtain ⟨h1, h2, h3⟩ := h
+  cases a <;> cases w <;> cases sp <;> cases flag <;>
+    simp [step, workerStep, wakeIfWaiting] at hs h1 h2 h3 <;>
+    (subst hs; constructor <;> simp)
+
+theorem inv_run (acts : List Act) : ∀ s, Inv s → Inv (run step s acts) := by
+  induction acts with
+  | nil => intro s h; exact h
+  | cons a acts ih =>
+    intro s h
+    simp only [run, List.foldl_cons]
+    cases hs : step s a with
+    | none => simpa [run] using ih s h
+    | some s' => simpa [run] using ih s' (inv_step s s' a h hs)
+
+end Cocls.Sched.Stop
